@@ -25,7 +25,10 @@ def gen(run, name, sess, msgs, depth, simulate=None):
                                simulate=simulate, depth=depth + 1 if simulate else None)
 
 
-def scenario(h):
+def scenario(h, early=False):
+    """early: every sweep past the deadlines is preceded by one that falls shortly BEFORE them (now + 2.6 s / 2.9 s against deadlines
+    of now + 3 s): the expiry structure works in whole seconds and may or may not fire then - but whatever it does not fire must
+    still fire at the next sweep."""
     sess = sorted({o["s"] for o in h if o["s"]})
     cn = {s: i + 1 for i, s in enumerate(sess)}
     ops = []
@@ -45,6 +48,9 @@ def scenario(h):
         elif o["op"] == "strayack":
             ops.append({"op": "send", "c": cn[o["s"]], "kind": "PUBACK", "id": 60000})
         elif o["op"] == "sweep":
+            if early:
+                ops.append({"op": "sweep", "n": 1, "ms": 2600})
+                ops.append({"op": "sweep", "n": 1, "ms": 2900})
             ops.append({"op": "sweep", "n": 1, "ms": 4500})
         elif o["op"] == "end":
             ended.add(o["s"])
@@ -65,7 +71,7 @@ def check(run):
     hs = [h for h in hs if any(o["op"] == "deliver" for o in h)]
     if not thorough:
         hs = hs[:: max(1, len(hs) // 260)]
-    scns = [scenario(h) for h in hs]
+    scns = [scenario(h, early=(i % 2 == 1)) for i, h in enumerate(hs)]
     run.log("%d response scripts from TLC" % len(scns))
     tpath, crashes = brokerlib.execute(run, scns, "c03", shards=12)
     if crashes:
@@ -80,7 +86,7 @@ def check(run):
         "distinct_nontrivial": retx,
         "rule": "scenario = TLC-generated client response script (exhaustive depth %d for one subscriber and a QoS 1 + a QoS 2 message; simulated "
                 "depth 8 for two subscribers and three messages): deliver / PUBACK / PUBREC / PUBCOMP (also of the wrong type) / foreign "
-                "identifier / sweep past the deadlines / close / DISCONNECT, closed by two sweeps and a probe of the identifier pool; "
+                "identifier / sweep past the deadlines (in every other scenario preceded by sweeps 0.4 s and 0.1 s before them) / close / DISCONNECT, closed by two sweeps and a probe of the identifier pool; "
                 "non-trivial = contains at least one deadline expiry" % (5 if thorough else 4),
         "events_validated": nev, "trace_spec_states": tstates, "rejections": len(rejected),
         "samples": [hs[0], hs[len(hs) // 2], {"scenario": scns[-1]}],
